@@ -25,7 +25,7 @@ for rel in ids:
         print("%-7s patch does not apply to current /repo HEAD: %s" % (rel, r.stdout.strip()[:200])); sh("git -C /repo checkout -- ."); results[rel] = dict(applies=False); continue
     try:
         t0 = time.time()
-        r = sh("cd %s && ./vcheck %s %s" % (HERE, prop, tier))
+        r = sh("cd %s && VERIF_EVIDENCE_DIR=%s/build/evidence_mutants ./vcheck %s %s" % (HERE, HERE, prop, tier))
         viol = [l for l in r.stdout.splitlines() if l.startswith("VIOLATION")]
         sig = [l.strip() for l in r.stdout.splitlines() if l.strip().startswith("signature=")]
         results[rel] = dict(applies=True, tier=tier, checked_with=prop, exit=r.returncode, detected=(r.returncode == 1 and bool(viol)), first=(sig[0][:300] if sig else ""), wall_s=round(time.time() - t0, 1))
